@@ -29,8 +29,11 @@ def _one(args):
             return dict(k=k, file=rel, new=new[:80], expect=expect, got="anchor-missing", rule=None)
         with open(p, "w") as fh:
             fh.write(s.replace(old, new, 1))
-        r = subprocess.run([sys.executable, "-m", "pst.check", pid, "--repo", d, "--dry"], cwd=VERIF, capture_output=True,
-                           text=True, timeout=300)
+        try:
+            r = subprocess.run([sys.executable, "-m", "pst.check", pid, "--repo", d, "--dry"], cwd=VERIF, capture_output=True,
+                               text=True, timeout=300)
+        except subprocess.TimeoutExpired:
+            return dict(k=k, file=rel, new=new[:80], expect=expect, got="timeout", rule=None)
         rule = None
         for ln in r.stdout.splitlines():
             if " rule=" in ln:
